@@ -879,7 +879,7 @@ def regenerate(repo, outdir):
         path = os.path.join(outdir, fn)
         try:
             txt = g(repo) + "\n"
-        except (TranslatorError, SyntaxError, OSError) as e:
+        except Exception as e:  # noqa: BLE001 -- TranslatorError / SyntaxError / OSError, and anything an unforeseen AST shape raises inside the translator
             why = f"{type(e).__name__}: {e}"
             try:
                 # the SHAPE is not recognised (e.g. a refactoring): read tables and parser behaviour from the running code instead
